@@ -101,6 +101,7 @@ package sonic
 //@   requires pcInv(c) && cb != nil && !pcArmedR(c) && 0 <= c.ioc.Dispatched && c.ioc.Dispatched <= MaxCallbackDispatch
 //@   inline call (*packetConn).asyncReadNow
 //@   assert call packetConn).ReadFrom: c.ioc.Dispatched < MaxCallbackDispatch
+//@   assert any call cb: [C14 counted] c.ioc.Dispatched > old(c.ioc.Dispatched)
 //@   consumes cb unless pcArmedR(c)
 //@   ensures [depth] c.ioc.Dispatched == old(c.ioc.Dispatched)
 
@@ -135,6 +136,7 @@ package sonic
 //@   requires pcInv(c) && cb != nil && !pcArmedW(c) && 0 <= c.ioc.Dispatched && c.ioc.Dispatched <= MaxCallbackDispatch
 //@   inline call (*packetConn).asyncWriteToNow
 //@   assert call packetConn).WriteTo: c.ioc.Dispatched < MaxCallbackDispatch
+//@   assert any call cb: [C14 counted] c.ioc.Dispatched > old(c.ioc.Dispatched)
 //@   consumes cb unless pcArmedW(c)
 //@   ensures [depth] c.ioc.Dispatched == old(c.ioc.Dispatched)
 
